@@ -62,6 +62,10 @@ class Harness:
                 t = c.fresh_int('created', 0, 4_000_000_000)
                 c.assume(t <= now)
                 w.tweak_creation(o, t)
+                # the compiled cleanup compares ages with the real clock, which moves while the replay runs: scenarios that
+                # are replayed are chosen (when such a model exists) with every age at least an hour away from the
+                # retention threshold; the exploration itself covers the threshold exactly
+                c.prefer.append(z3.Or(t < now - AGE - 3600, t > now - AGE + 3600))
         initial = [dict(o) for o in w.store.objs]
         # --- the race: A cleans up, B does something else
         other = self.others[c.choose(len(self.others), 'other-client')]
@@ -211,6 +215,7 @@ ASSUMPTIONS = [
     'a concurrent add_snapshot names a version at or after the newest snapshot already stored (snapshot uploads follow their version immediately; one delayed past the retention age is outside the bound)',
     'object creation times are arbitrary instants not later than now; SystemTime::now is one symbolic instant >= 360 days after the epoch',
     'ring primitives idealised; version ids fresh, distinct, symbolic order (cleanup sorts and binary-searches them)',
+    'replay clock: the compiled cleanup reads the real clock, so the replay moves every time of the scenario by (real now - model now), keeping all ages exact; replayed scenarios are chosen with ages at least one hour away from the 180-day threshold when such a model exists (the symbolic exploration includes the threshold itself)',
     'replay: store content, ages, schedule and stop point are run on the compiled CloudServer (cleanup through the hook) over the gated hook store; the run is repeated until the randomly minted ids have the relative order of the model; confirmed when results, request log and store equal the prediction',
 ]
 EXPLANATION = ('store content (chain length, snapshot positions, orphans) and the other client\'s action forked; object ages, version id order and '
